@@ -184,5 +184,23 @@ pub fn c15_native_config_serialisation() {
         if texts[i] == texts[j] { eprintln!("COUNTEREXAMPLE structures {j} and {i} (flat, loop, scope, if, if-else, swapped order) serialise identically:\n{}", texts[i]); panic!("configurations that differ in structure must serialise differently") }
     }}
     cases += 6;
+    // ---- lenses are parameters too: the same mapping over different lens TARGETS (incl. targets that differ only in a type
+    //      argument of a generic state type) must serialise differently and name the target completely
+    {
+        use crate::{components::{mapping::Linear, mutation::{MutationStrength, UniformMutation}, swarm::pso::{InertiaWeight, ParticleVelocitiesUpdate}},
+                    identifier::{A, B}, lens::ValueOf, state::common::{Evaluations, Iterations, Progress}};
+        let a = Configuration::<RealP>::builder().do_(Linear::new(0.9, 0.4, ValueOf::<Progress<ValueOf<Iterations>>>::new(), ValueOf::<InertiaWeight<ParticleVelocitiesUpdate>>::new())).build();
+        let b = Configuration::<RealP>::builder().do_(Linear::new(0.9, 0.4, ValueOf::<Progress<ValueOf<Evaluations>>>::new(), ValueOf::<InertiaWeight<ParticleVelocitiesUpdate>>::new())).build();
+        let c = Configuration::<RealP>::builder().do_(Linear::new(0.9, 0.4, ValueOf::<Progress<ValueOf<Iterations>>>::new(), ValueOf::<InertiaWeight<ParticleVelocitiesUpdate<A>>>::new())).build();
+        let d = Configuration::<RealP>::builder().do_(Linear::new(0.9, 0.4, ValueOf::<Progress<ValueOf<Iterations>>>::new(), ValueOf::<InertiaWeight<ParticleVelocitiesUpdate<B>>>::new())).build();
+        let e = Configuration::<RealP>::builder().do_(Linear::new(0.9, 0.4, ValueOf::<Progress<ValueOf<Iterations>>>::new(), ValueOf::<MutationStrength<NormalMutation>>::new())).build();
+        let f = Configuration::<RealP>::builder().do_(Linear::new(0.9, 0.4, ValueOf::<Progress<ValueOf<Iterations>>>::new(), ValueOf::<MutationStrength<UniformMutation>>::new())).build();
+        let texts: Vec<String> = [&a, &b, &c, &d, &e, &f].iter().map(|x| ser(x)).collect();
+        for i in 0..texts.len() { for j in 0..i {
+            if texts[i] == texts[j] { eprintln!("COUNTEREXAMPLE lens variants {j} and {i} (input Progress<Iterations> / Progress<Evaluations>; output InertiaWeight<..>, <..A>, <..B>, MutationStrength<Normal>, <Uniform>) serialise identically:\n{}", texts[i]); panic!("configurations that differ in a lens target must serialise differently") }
+        }}
+        if !texts[0].contains("Iterations") || !texts[1].contains("Evaluations") { eprintln!("COUNTEREXAMPLE the export does not name the complete lens target:\n{}\n{}", texts[0], texts[1]); panic!("the serialisation must name every parameter") }
+        cases += 6;
+    }
     println!("c15_native_config_serialisation: {} configurations serialised and compared", cases);
 }
